@@ -85,6 +85,11 @@ def opHistory (inp imp : Json) : Except String Json := do
       -- (`finalize_generation` removes reserved-named files not in the list the run returned; the directory listing is
       -- `fileNames`); a stale reserved-named file that cannot be removed makes the clean-up fail: the run is reported as
       -- failed and its record is dropped again (fix 2a70fe0)
+      -- a step may name its own entry point (histories mixing the command line and the build script over one directory)
+      let build := match (getS st "path").toOption with
+        | some "build" => true
+        | some "cli" => false
+        | _ => build
       let r : Res × Action × Out (List Nat × Bool × Bool) (List Nat) :=
         if build then R.runBuildF S (fun n => reservedHere.contains n) fileNames (getS st "leftover").toOption.isSome w.src w.cfg forced fault w.out
         else run S w.src w.cfg forced fault w.out
